@@ -3,6 +3,9 @@
    every APIServer method performs before it calls the WalletManager), written with explicit
    Go failure modes: [Ok | Err code | Panic site].  Slice indexing, slicing and
    strings.Repeat are Panic-producing operations, so that "never panics" is a statement.
+   38 request kinds: the 26 of the first round and the second group (binding / pool-coinbase creation, staking and
+   binding history, SendRawTransaction, network / pool / target queries, the block service, Wallets), whose address and
+   payload decoding is an oracle ([codecs]).
    Definitions only (proofs: Api/Proofs.v, theorems: Properties/C19.v).
    Strings are lists of byte codes (as in Codec/Amount.v). Length limits are the translated
    constants of Gen/Consts.v; error codes are the numeric gRPC status codes of api/errors.go
@@ -48,7 +51,18 @@ Inductive site :=
 | PTaskChanNil       (* IsWorkerBusy / OnImportWallet / OnRemoveWallet: h.taskChan == nil *)
 | PFilterTxIndex     (* filterTx: prevTx.TxOut[txIn.PreviousOutPoint.Index] *)
 | PFilterImpIndex    (* filterTxForImporting: prevTx.TxOut[txIn.PreviousOutPoint.Index] *)
-| PTxLocsIndex       (* filterBlock: txLocs[i] *).
+| PTxLocsIndex       (* filterBlock: txLocs[i] *)
+(* api/tx_service.go, api/block_service.go, masswallet/txmgr/utxostore.go (the second group of API methods) *)
+| PTargetIdx         (* CheckTargetBinding: target.ScriptAddress()[20] and [21] *)
+| PBindHistIndex     (* GetBindingHistoryDetail: msgtx.TxOut[index] (GetUnminedBindingHistoryDetail: rec.MsgTx.TxOut[index]) *)
+| PBindHistTargetNil (* GetBindingHistory: detail.Utxo.BindingTarget.EncodeAddress() on the nil second address of a script that is not a binding script *)
+| PBindHistPrevIndex (* GetBindingHistory: prevMtx.TxOut[txIn.PreviousOutPoint.Index] *)
+| PTxTypeIndex       (* getTxType: tx.TxOut[index] *)
+| PVinIndex          (* createVinList: prevTx.TxOut[txIn.PreviousOutPoint.Index] *)
+| PRewardTxOut       (* GetBlockStakingReward: txOuts[j] for j < NumStakingReward() *)
+(* masswallet/keystore/manager.go *)
+| PCurEvictedNil     (* GetManagedAddressByScriptHashInCurrent: km.managedKeystores[km.currentKeystore.accountName].addrs when the cache
+                        has lost the entry of the keystore that is still selected *).
 
 Inductive outcome (A : Type) :=
 | Ok (a : A)
@@ -93,6 +107,10 @@ Definition ErrAPIInvalidVersion : Z := 1513.
 Definition ErrAPIInvalidMnemonic : Z := 1516.
 Definition ErrAPIInvalidTxId : Z := 1518.
 Definition ErrAPIInvalidTxHistoryCount : Z := 1519.
+Definition ErrAPIGetStakingTxDetail : Z := 1105.
+Definition ErrAPIBlockNotFound : Z := 1203.
+Definition ErrAPIQueryDataFailed : Z := 1702.
+Definition ErrAPIAbnormalData : Z := 1703.
 Definition ErrBelow : Z := 0.
 
 (* ---------------------------------------------------------------- api/util.go: length checks *)
@@ -191,9 +209,66 @@ Definition amount_to_string_p (m : Z) : outcome str :=
         if null sFrac then Ok sInt' else Ok (sInt' ++ [ch_dot] ++ sFrac)
     end).
 
+(* ---------------------------------------------------------------- addresses, payloads (mass-core codecs: oracles) *)
+(* what massutil.DecodeAddress says about a string: an error, a witness script hash (witness version,
+   extend version: 0 = standard, 1 = staking), a pubkey hash (the old binding target), a 22-byte binding
+   target, or another kind of address (pubkey, script hash) with a script of [n] bytes *)
+Inductive addr_class := ADecErr | AWitness (wver ext : Z) | APubKeyHash | ABindingTarget | AOther (n : Z).
+
+Record codecs := {
+  c_addr : str -> addr_class;             (* massutil.DecodeAddress(s, config.ChainParams) *)
+  c_payload_pool : list Z -> bool         (* blockchain.DecodePayload(raw) != nil && its Method == BindPoolCoinbase *)
+}.
+
+(* len(a.ScriptAddress()): [32]byte, [20]byte and [22]byte arrays inside the address types *)
+Definition script_len (a : addr_class) : Z :=
+  match a with AWitness _ _ => 32 | APubKeyHash => 20 | ABindingTarget => 22 | AOther n => n | ADecErr => 0 end.
+
+(* checkWitnessAddress(address, expectStaking, net) *)
+Definition check_witness_address (cd : codecs) (a : str) (staking : bool) : outcome unit :=
+  match c_addr cd a with
+  | AWitness wv ext => check (negb ((wv =? 0) && (ext =? (if staking then 1 else 0)))) ErrAPIInvalidAddress
+  | _ => Err ErrAPIInvalidAddress
+  end.
+
+(* massutil.IsValidBindingTarget *)
+Definition is_valid_binding_target (a : addr_class) : bool :=
+  match a with APubKeyHash | ABindingTarget => true | _ => false end.
+
+(* parseBindingTarget(address, net) *)
+Definition parse_binding_target (cd : codecs) (a : str) : outcome addr_class :=
+  let c := c_addr cd a in
+  if is_valid_binding_target c then Ok c else Err ErrAPIInvalidAddress.
+
+(* hex.DecodeString (NOT decodeHexStr: an odd length is an error) *)
+Definition decode_hex_strict (s : str) : option (list Z) :=
+  if Z.even (lenZ s) && forallb is_hex s then Some (hex_pairs s) else None.
+
+(* consensus.MinStakingValue (mass-core; restated, compared with the implementation on every run) *)
+Definition MinStakingValue : Z := 2048 * MaxwellPerMass.
+
+(* CreateBindingTransaction: totalOutValue.Add(val) for every output; Amount.Add refuses a sum above MaxAmount *)
+Fixpoint sum_amounts (l : list str) (acc : Z) : outcome Z :=
+  match l with
+  | [] => Ok acc
+  | a :: r => bind (check_parse_amount a) (fun v =>
+              if max_amount <? acc + v then Err ErrAPIInvalidAmount else sum_amounts r (acc + v))
+  end.
+
+(* a fee string: any parse error is reported as ErrAPIUserTxFee *)
+Definition check_fee (fee : str) : outcome unit :=
+  match check_parse_amount fee with
+  | Ok _ => Ok tt
+  | Err _ => Err ErrAPIUserTxFee
+  | Panic p => Panic p
+  end.
+
 (* ---------------------------------------------------------------- requests *)
 (* one transaction input of a request: txid string and output index (uint32) *)
 Record inp := { in_txid : str; in_vout : Z }.
+
+(* one output of a CreateBindingTransaction request *)
+Record bind_out := { bo_holder : str; bo_binding : str; bo_amount : str }.
 
 Inductive request :=
 | RUseWallet (id : str)
@@ -221,7 +296,20 @@ Inductive request :=
 | RGetTransactionFee (amounts : list (str * str)) (inputs : list inp) (has_binding : bool)
 | RWmEstimateManualTxFee (inputs : list inp)      (* WalletManager.EstimateManualTxFee called directly *)
 | RSignRawTransaction (rawtx pass flags : str)
-| RWmGetTxHistory (wanted : Z)                    (* WalletManager.GetTxHistory called directly (negative counts) *).
+| RWmGetTxHistory (wanted : Z)                    (* WalletManager.GetTxHistory called directly (negative counts) *)
+(* the second group: api/tx_service.go, api/block_service.go, Wallets *)
+| RCreateBindingTransaction (outputs : list bind_out) (from fee : str)
+| RCreatePoolPkCoinbaseTransaction (from payload : str)
+| RGetStakingHistory (type : str)
+| RGetBindingHistory (type : str)
+| RSendRawTransaction (hex : str)
+| RGetNetworkBinding (height : Z)
+| RCheckPoolPkCoinbase (pubkeys : list str)
+| RCheckTargetBinding (targets : list str)
+| RGetBlockByHeight (height : Z)
+| RGetBestBlock
+| RGetBlockStakingReward (height : Z)
+| RWallets.
 
 (* uint16(in.Version) is a valid address class: 0 (witness v0) or 1 (staking) *)
 Definition valid_address_class (v : Z) : bool := let c := v mod 65536 in (c =? 0) || (c =? 1).
@@ -230,6 +318,11 @@ Definition valid_address_class (v : Z) : bool := let c := v mod 65536 in (c =? 0
    strings.TrimSpace; the theorems hold for any function in its place. *)
 Section Prologue.
   Variable trim : str -> str.
+  Variable cd : codecs.
+
+  (* an optional address argument: checked when it is not empty *)
+  Definition check_opt_witness_address (a : str) : outcome unit :=
+    if 0 <? lenZ a then check_witness_address cd a false else Ok tt.
 
   Definition check_amount_map (m : list (str * str)) : outcome unit :=
     check_all (fun kv => bind (check_address_len (trim (fst kv))) (fun _ =>
@@ -262,23 +355,48 @@ Section Prologue.
         bind (check_all (fun i => check_txid_len (trim (in_txid i))) inputs) (fun _ =>
         check_amount_map amounts))))
     | RWmCreateRawTransaction _ _ _ => Ok tt
-    | RAutoCreateTransaction amounts locktime fee _ _ =>
+    | RAutoCreateTransaction amounts locktime fee from change =>
         bind (check_locktime locktime) (fun _ =>
         bind (check_not_empty amounts) (fun _ =>
         bind (check_amount_map amounts) (fun _ =>
-        match check_parse_amount fee with
-        | Ok _ => Ok tt
-        | Err _ => Err ErrAPIUserTxFee
-        | Panic p => Panic p
-        end)))
-    | RCreateStakingTransaction _ _ amount _ fee =>
-        bind (check_parse_amount amount) (fun _ => Ok tt)   (* the value test and the fee/address checks follow below the modelled prologue *)
+        bind (check_fee fee) (fun _ =>
+        bind (check_opt_witness_address (trim from)) (fun _ =>
+        check_opt_witness_address (trim change))))))
+    | RCreateStakingTransaction from staking amount _ fee =>
+        bind (check_parse_amount amount) (fun v =>
+        bind (check (v <? MinStakingValue) ErrAPIInvalidAmount) (fun _ =>      (* wire.IsValidStakingValue *)
+        bind (check_fee fee) (fun _ =>
+        bind (check_opt_witness_address from) (fun _ =>
+        check_witness_address cd staking true))))
     | RGetTransactionFee amounts inputs _ => check_not_empty amounts
     | RWmEstimateManualTxFee _ => Ok tt
     | RSignRawTransaction rawtx _ _ =>
         bind (check (lenZ rawtx =? 0) ErrAPIInvalidTxHex) (fun _ =>
         check (match decode_hex_str rawtx with None => true | _ => false end) ErrAPIInvalidTxHex)
     | RWmGetTxHistory _ => Ok tt
+    | RCreateBindingTransaction outputs from fee =>
+        bind (check_not_empty outputs) (fun _ =>
+        bind (sum_amounts (map bo_amount outputs) 0) (fun _ =>
+        bind (check_fee fee) (fun _ =>
+        bind (check_opt_witness_address from) (fun _ =>
+        check_all (fun o => bind (check_witness_address cd (bo_holder o) false) (fun _ =>
+                            bind (parse_binding_target cd (bo_binding o)) (fun _ =>
+                            bind (check_parse_amount (bo_amount o)) (fun _ => Ok tt)))) outputs))))
+    | RCreatePoolPkCoinbaseTransaction from payload =>
+        bind (check_witness_address cd (trim from) false) (fun _ =>
+        match decode_hex_strict payload with
+        | None => Err ErrAPIInvalidParameter
+        | Some raw => check (negb (c_payload_pool cd raw)) ErrAPIInvalidParameter
+        end)
+    | RGetStakingHistory _ | RGetBindingHistory _ => Ok tt
+    | RSendRawTransaction h =>
+        bind (check (lenZ h =? 0) ErrAPIInvalidTxHex) (fun _ =>
+        check (match decode_hex_str h with None => true | _ => false end) ErrAPIInvalidTxHex)
+    | RGetNetworkBinding _ => Ok tt
+    | RCheckPoolPkCoinbase pks =>
+        check_all (fun pk => check (match decode_hex_strict pk with None => true | _ => false end) ErrAPIInvalidParameter) pks
+    | RCheckTargetBinding _ => Ok tt           (* undecodable targets are answered as "Unknown" *)
+    | RGetBlockByHeight _ | RGetBestBlock | RGetBlockStakingReward _ | RWallets => Ok tt
     end.
 End Prologue.
 
